@@ -207,7 +207,27 @@ def check(run: Run) -> None:
     stores_ = [n for n in own_nodes(rf) if isinstance(n, ast.Assign) and isinstance(n.targets[0], ast.Subscript) and ast.unparse(n.targets[0].value) == "_global_functions"]
     weak = [c for c in calls_in(rf) if isinstance(c.func, ast.Attribute) and c.func.attr in ("setdefault",) and ast.unparse(c.func.value) == "_global_functions"]
     fr = ctx.analysis(rf)
-    ok = len(stores_) == 1 and not weak and fr.cfg.postdominates(fr.cfg.node_of(stores_[0]), fr.cfg.entry)
+    handled7 = False
+    if not stores_ and not weak:
+        # the store sits in a helper shared with the pre-registration of abs/len: _add_global_function(name, function, processor)
+        from ..lib import call_sites_of as _cso, unit as _unit7
+        from ..terms import subst as _subst7
+
+        for g_ in _unit7(m, rf, depth=1):
+            if g_ is rf:
+                continue
+            st_g = [n for n in own_nodes(g_) if isinstance(n, ast.Assign) and isinstance(n.targets[0], ast.Subscript) and ast.unparse(n.targets[0].value) == "_global_functions"]
+            sites_ = [(call, skip) for c_, call, skip in _cso(m, g_) if c_ is rf]
+            fg = ctx.analysis(g_)
+            if len(st_g) == 1 and len(sites_) == 1 and not sites_[0][0].keywords and fg.cfg.postdominates(fg.cfg.node_of(st_g[0]), fg.cfg.entry) and fr.cfg.postdominates(fr.cfg.node_of(stmt_of(sites_[0][0])), fr.cfg.entry) and not any(isinstance(c.func, ast.Attribute) and c.func.attr == "setdefault" for c in calls_in(g_)):
+                bind_ = {("param", p_): strip_sites(fr.term_of(a_)) for p_, a_ in zip(g_.pos_params[sites_[0][1]:], sites_[0][0].args)}
+                v = _subst7(strip_sites(fg.term_of(st_g[0].value)), bind_)
+                ok_v = v[0] == "app" and len(v[2]) == 3 and v[2][1] == ("param", rf.pos_params[0]) and v[2][2] == ("param", rf.pos_params[1])
+                run.check(True, "C09.R7", rf, stmt_of(sites_[0][0]), "registration overwrites unconditionally (through a helper)", "")
+                run.check(ok_v, "C09.R7", rf, stmt_of(sites_[0][0]), "the entry holds the function and its processor", f"the registry entry is {show(v)[:100]}")
+                handled7 = True
+                break
+    ok = handled7 or (len(stores_) == 1 and not weak and fr.cfg.postdominates(fr.cfg.node_of(stores_[0]), fr.cfg.entry))
     run.check(ok, "C09.R7", rf, stores_[0] if stores_ else (stmt_of(weak[0]) if weak else rf.node), "registration overwrites unconditionally", "a function registered again under the same name (or a processor attached to a pre-registered name such as abs/len) does not replace the earlier entry: the new processor never fires and a stale one does", "_global_functions[info.name] = info")
     if stores_:
         v = strip_sites(fr.term_of(stores_[0].value))
